@@ -211,3 +211,11 @@ MUTANTS = [
 ENGINES = ['model', 'dsf', 'paths']
 TECHNIQUE = ('static analysis: transitive attribute read-set comparison (observer dependency), derived-state freshness '
              'dataflow for sub-objects, guard-dominance path rule')
+
+
+def sweep(overlay):
+    from ..dsf import dsf_sweep
+    from ..selftest import sweep_lines
+    out = dsf_sweep(overlay, CELL3SEC, 'C19')
+    out += sweep_lines(overlay, CE, 'CellBase.add_user', lambda t: t.startswith('raise '), 'C19')
+    return out
